@@ -135,6 +135,9 @@ type Prog struct {
 	name    string
 	caseIdx int
 	Rng     *Rng
+	// violating counts the cases of this program that reported a violation; a program that has shown
+	// its violation many times over is not explored further (only ever shortens runs on a broken tree)
+	violating int
 }
 
 // Program runs f if this shard owns the program (round-robin over the program index).
@@ -180,6 +183,9 @@ func (p *Prog) Case(spec any, f func() *Result) {
 	if pi := progIdxOf(p.name); pi == c.skipProg && idx <= c.skipCase {
 		return
 	}
+	if p.violating >= 12 {
+		return
+	}
 	p.runCase(idx, spec, f)
 }
 
@@ -195,6 +201,9 @@ func (p *Prog) runCase(idx int, spec any, f func() *Result) {
 	r := f()
 	if r == nil {
 		r = &Result{}
+	}
+	if len(r.V) > 0 {
+		p.violating++
 	}
 	if len(r.V) == 0 {
 		r.Log = nil
